@@ -242,6 +242,7 @@ for opname in ("__add__", "__rmul__"):
         c.requires("p0 > 0 and p1 > 0")
         c.ensures("result.natural == self.natural and result.norm_type == self.norm_type", "isotope-mode-and-normalisation-carried-over")
         c.ensures("all([near(comp.component_mass.value('Da'), m) for comp, m in zip(result.components.values(), ms)])", "component-masses-in-the-same-isotope-mode")
+        c.fresh("list(result.components.values())", "result-shares-no-component-object-with-an-operand", each=True)
         c.no_raise()
 
 
@@ -363,11 +364,32 @@ def _(c):
             def pre(b, text=text, key=key, given=given):
                 x, p = b.real("x"), b.real("p")
                 kw = dict(mass_density=b.new(QTY, x, "g/cm3")) if given == "rho" else dict(number_density=b.new(QTY, x, "cm-3"))
+                twin = b.new(SUB, text, **(dict(mass_density=b.new(QTY, x, "g/cm3")) if given == "rho" else dict(number_density=b.new(QTY, x, "cm-3"))))
                 s = b.new(SUB, text, **kw)
-                return dict(args=[s, key, p], env=dict(x=x, p=p, given=given, m0=_mass(text) * DA_G, mk=M.species(key)[0] * DA_G))
+                return dict(args=[s, key, p], env=dict(x=x, p=p, given=given, m0=_mass(text) * DA_G, mk=M.species(key)[0] * DA_G, twin=twin, c0=dict(M.expand_text(text))))
             c.scenario(f"{text} {given} add {key}", pre)
     c.requires("x > 0 and p > 0")
     c.ensures("near(self.mass_density.value('g/cm3'), x if given == 'rho' else x * (m0 + p * mk))", "mass-density-is-n-times-the-new-formula-mass")
     c.ensures("near(self.number_density.value('cm-3'), x / (m0 + p * mk) if given == 'rho' else x)", "number-density-is-rho-over-the-new-formula-mass")
     c.ensures("(lambda t: near(t['sum'].data()['rho'], self.mass_density.value('g/cm3')) and near(t['sum'].data()['rho'], sum([t[k].data()['rho'] for k in self.components.keys()])))(self.data_matter(quantity=False))", "component-mass-densities-add-up-to-rho")
+    c.ensures("counts(twin) == c0 and near(twin.mass_density.value('g/cm3'), x if given == 'rho' else x * m0)", "another-object-built-from-the-same-formula-is-unaffected")
+    c.no_raise()
+
+
+# ---- a species that occurs several times in a formula is still that species in the requested isotope mode ------------------------------
+@contract(f"{SUB}.__init__", ["C10"], name="Substance.__init__[repeated-species]")
+def _(c):
+    c.bound = "formulas in which a species without explicit isotope occurs more than once; natural and most-abundant mode"
+    c.chunk = 3
+    E = lambda e, n=1: ("el", e, n)
+    for text, f in [("CH3COOH", [E("C"), E("H", 3), E("C"), E("O"), E("O"), E("H")]), ("HHO", [E("H"), E("H"), E("O")]),
+                    ("CH3(CH2)2CH3", [E("C"), E("H", 3), ("grp", [E("C"), E("H", 2)], 2), E("C"), E("H", 3)]), ("ClCl2Cl", [E("Cl"), E("Cl", 2), E("Cl")])]:
+        for nat in (True, False):
+            def pre(b, text=text, f=f, nat=nat):
+                cnt = M.expand(f)
+                return dict(args=[b.obj(SUB), text], kwargs=dict(natural=nat), env=dict(want=dict(cnt), tot=_sums(cnt, nat), nat=nat, sp={k: M.species(k, nat) for k in cnt}))
+            c.scenario(f"{text}[{'natural' if nat else 'abundant'}]", pre)
+    c.ensures("counts(self) == want", "each-species-with-its-expanded-count")
+    c.ensures("(lambda d: near(d['mass'], tot[0]) and near(d['Z'], tot[1]) and near(d['N'], tot[2]) and near(d['e'], tot[3]))(self.data_composite(quantity=False)['sum'].data())", "totals-are-count-weighted-sums")
+    c.ensures("all([near(comp.mass.value('Da'), sp[k][0]) and near(comp.N, sp[k][2]) and comp.natural == nat for k, comp in self.components.items()])", "per-species-data-in-the-requested-isotope-mode")
     c.no_raise()
